@@ -105,7 +105,7 @@ def _patterns(repo=None):
     return out
 
 
-PROBE_ARGS = [7, 8, 9]
+PROBE_ARGS = [7, 8, 9, 11, 12, 13]
 
 
 def facts(_=None):
@@ -127,12 +127,15 @@ def facts(_=None):
     fall = [idx(c) for c in (sqltypes.INTEGER, sqltypes.TEXT, sqltypes.NullType, sqltypes.REAL, sqltypes.NUMERIC)]
     accepts, render, irregular = [], [], []
     for ci, c in enumerate(classes):
-        for n in range(0, 4):
+        for n in range(0, 7):
             try:
                 with warnings.catch_warnings():
                     warnings.simplefilter("ignore")
                     inst = c(*PROBE_ARGS[:n])
             except TypeError:
+                continue
+            except Exception as e:  # e.g. BOOLEAN(7, 8, 9, 11): not caught by _resolve_type_affinity either
+                irregular.append([c.__name__, n, "constructor raises " + type(e).__name__])
                 continue
             accepts.append([ci, n])
             try:
@@ -237,12 +240,12 @@ def _uq_texts(rng, tier):
             if "UNIQUE" in s.upper() and "(" in s:
                 out.append(s)
     rng.shuffle(out)
-    out = out[: 900 if tier == "quick" else 6000]
-    for _ in range(500 if tier == "quick" else 5000):
+    out = out[: 500 if tier == "quick" else 6000]
+    for _ in range(300 if tier == "quick" else 5000):
         k = rng.randint(3, 14)
         out.append("".join(rng.choice(TOKENS) for _ in range(k)))
     # realistic shapes with awkward names
-    for _ in range(300 if tier == "quick" else 3000):
+    for _ in range(200 if tier == "quick" else 3000):
         nm = rng.choice(NAMEPOOL)
         q = rng.choice(['"%s"' % nm.replace('"', '""'), nm, "[%s]" % nm, "`%s`" % nm])
         cols = ", ".join(rng.choice(['"%s"' % c.replace('"', '""'), c]) for c in rng.sample(NAMEPOOL, rng.randint(1, 3)))
@@ -278,7 +281,7 @@ def _type_strings(rng, tier):
 
 def _uq_specs(rng, tier, pool):
     specs = []
-    for _ in range(260 if tier == "quick" else 3000):
+    for _ in range(140 if tier == "quick" else 3000):
         k = rng.randint(1, 3)
         cons = []
         allcols = []
@@ -305,7 +308,7 @@ def gen_cases(rng, tier):
     for s in _uq_texts(rng, tier):
         cases.append({"in": [0, S(s)], "kind": "uq-text"})
     # get_unique_constraints itself on synthetic text
-    for _ in range(300 if tier == "quick" else 3000):
+    for _ in range(200 if tier == "quick" else 3000):
         cols = rng.sample(["a", "b", "c d", "e$", 'f"g', "CONSTRAINT", "h"], rng.randint(1, 4))
         cons = []
         for _ in range(rng.randint(0, 3)):
@@ -329,7 +332,10 @@ def gen_cases(rng, tier):
     for cons in _uq_specs(rng, "quick", SAFE_NAMES):
         cases.append({"in": [2, [[[] if n is None else [S(n)], [S(c) for c in cols]] for n, cols in cons]], "kind": "uq-render-safe"})
     for s in _type_strings(rng, tier):
-        cases.append({"in": [3, S(s)], "kind": "affinity"})
+        m = re.match(r"[\w ]+\((.*?)\)", s)
+        zero = bool(m) and any(int(x) == 0 for x in re.findall(r"\d+", m.group(1)))
+        # a zero argument is falsy and some type compilers then leave it out: outside the model, oracle only
+        cases.append({"in": [3, S(s)], "kind": "affinity-zero" if zero else "affinity", "model": not zero})
     cases += _table_cases(rng, tier)
     return cases
 
@@ -446,7 +452,10 @@ def impl(c):
         s = unS(t[1])
         with warnings.catch_warnings():
             warnings.simplefilter("ignore")
-            ty = d._resolve_type_affinity(s)
+            try:
+                ty = d._resolve_type_affinity(s)
+            except Exception:
+                return [-1, []]
             out = [_class_index(ty)]
             try:
                 txt = d.type_compiler_instance.process(ty)
